@@ -24,8 +24,8 @@ import itertools
 
 from . import lib
 
-RULE = ("signatures: 0..4 parameters (plain names, `caller` at every position, `kwargs`/`varargs` and Python keywords "
-        "(`class`, `for`) as parameter names) x 0..3 defaults (constant, None, reference to an earlier / later parameter, outer variable re-set "
+RULE = ("signatures: 0..4 parameters (plain names, `caller` at every position, `kwargs`/`varargs`, Python keywords "
+        "(`class`, `for`) and `self` as parameter names; `self` also as an unknown keyword) x 0..3 defaults (constant, None, reference to an earlier / later parameter, outer variable re-set "
         "after the definition, context variable, unknown name) x 2^3 uses of caller/kwargs/varargs in the body. "
         "calls: exhaustive for signatures up to N parameters: 0..P positionals x every ordered-by-name subset of up "
         "to K keywords from {parameter names, unknown name, caller} (caller value cycling over macro / None / int), "
@@ -34,7 +34,7 @@ RULE = ("signatures: 0..4 parameters (plain names, `caller` at every position, `
         "distinct = (signature, call, path); non-trivial = at least one parameter not filled positionally and at "
         "least one keyword, surplus positional or special variable involved.")
 
-NAMES = {0: "caller", 1: "kwargs", 2: "varargs", 3: "a", 4: "b", 5: "c", 6: "d", 7: "class", 8: "for",
+NAMES = {0: "caller", 1: "kwargs", 2: "varargs", 3: "a", 4: "b", 5: "c", 6: "d", 7: "class", 8: "for", 9: "self",
          10: "o1", 11: "o2", 12: "o3", 20: "z", 21: "y", 22: "if"}
 IDS = {v: k for k, v in NAMES.items()}
 O1_DEF, O1_CALL, O2_CTX = 90, 91, 92
@@ -90,7 +90,13 @@ def def_source(d):
             ps.append(f"{NAMES[p]}={lit(e[1:]) if e[0] == 'c' else NAMES[int(e[1:])]}")
         else:
             ps.append(NAMES[p])
-    body = ",".join(f"{p}={{{{ {NAMES[p]}|show }}}}" if printed(d, p) else f"{p}=_" for p in d["params"])
+    # optional prelude: nested scopes that store a special name of their own BEFORE the body uses the special one
+    pre = ""
+    if d.get("prelude"):
+        forms = {0: "{% macro nn(caller) %}{% endmacro %}", 1: "{% for kwargs in [] %}{% endfor %}",
+                 2: "{% with varargs = 1 %}{% endwith %}"}
+        pre = "".join(forms[i] for i in (0, 1, 2) if d["uses"][i] and i not in d["params"])
+    body = pre + ",".join(f"{p}={{{{ {NAMES[p]}|show }}}}" if printed(d, p) else f"{p}=_" for p in d["params"])
     for idx, nm in enumerate(("caller", "kwargs", "varargs")):
         body += "|"
         if d["uses"][idx] and idx not in d["params"]:
@@ -285,6 +291,7 @@ def signatures(ctx, max_n):
             variants.append(base[:-1] + [1])
             variants.append([2] + base[1:])
             variants.append(base[:-1] + [7])          # a parameter named like a Python keyword
+            variants.append([9] + base[1:])           # a parameter named `self` (also given by keyword)
         if n >= 2:
             variants.append([8] + base[1:-1] + [7])
         for params in variants:
@@ -292,7 +299,7 @@ def signatures(ctx, max_n):
                 for uses in itertools.product((0, 1), repeat=3):
                     defaults = [ctx.rng.choice(default_options(params, n - nd + j)) for j in range(nd)]
                     out.append({"params": params, "defaults": defaults, "uses": list(uses),
-                                "o2": ctx.rng.random() < 0.5})
+                                "o2": ctx.rng.random() < 0.5, "prelude": ctx.rng.random() < 0.25})
     return out
 
 
@@ -312,7 +319,7 @@ def exhaustive_calls(d, max_pos, max_kw, cyc):
 
 
 def random_call(ctx, d, path):
-    cand = sorted(set(d["params"]) | {20, 21, 22, 0})
+    cand = sorted(set(d["params"]) | {20, 21, 22, 0} | ({9} if ctx.rng.random() < 0.15 else set()))
     npos = ctx.rng.randint(0, 5)
     k = ctx.rng.randint(0, min(4, len(cand)))
     names = ctx.rng.sample(cand, k)
@@ -337,7 +344,7 @@ def random_call(ctx, d, path):
 # ------------------------------------------------------------------ judging one case
 def judge(ctx, real, case, mline, finals_queue):
     d, c = case["def"], case["call"]
-    key = (tuple(d["params"]), tuple(d["defaults"]), tuple(d["uses"]), d["o2"])
+    key = (tuple(d["params"]), tuple(d["defaults"]), tuple(d["uses"]), d["o2"], bool(d.get("prelude")))
     fields = dict(f.split("=", 1) for f in mline.split(" "))
     mC = fields["C"]
     rd = real.compiled_def(d, key)
@@ -488,6 +495,20 @@ def probes(ctx, real):
             ctx.count("probe_rejected_by_engine")
         except Exception as e:  # noqa
             ctx.reject({"template": src}, f"{what}: unexpected {type(e).__name__}", "macro-binding: " + what)
+    # keywords that collide with the engine's internal call protocol (inside the quantifier: "unknown names")
+    for kwname in ("_loop_vars", "_block_vars"):
+        for call in ("{{ m(%s=3) }}" % kwname, "{{ m(**{'%s': 3}) }}" % kwname):
+            src = "{% macro m() %}{{ kwargs|show }}{% endmacro %}" + call
+            n += 1
+            try:
+                out = env.from_string(src).render()
+            except Exception as e:  # noqa
+                out = "raised " + type(e).__name__
+            if out != "{%s=i3}" % kwname:
+                ctx.reject({"template": src}, f"unconsumed keyword {kwname} must reach kwargs (or be a TypeError); engine gives {out!r}",
+                           "macro-binding: keyword _loop_vars/_block_vars swallowed by Context.call")
+            else:
+                ctx.count("probe_internal_keyword_ok")
     return n
 
 
